@@ -167,13 +167,21 @@ elab "ev_head" : tactic => withMainContext do
         | .const n _ =>
           if n == ``Prod.fst || n == ``Prod.snd then
             match e.getAppArgs.back? with
-            | some a => headOf a fuel
+            | some a =>
+              if a.isAppOfArity ``Prod.mk 4 then
+                headOf (if n == ``Prod.fst then a.getAppArgs[2]! else a.getAppArgs[3]!) fuel
+              else headOf a fuel
             | none => none
           else some n
         | _ => none
   match headOf e 8 with
   | none => throwError "ev_head: no head constant"
   | some n =>
+    if n == ``Streams.mk then
+      evalTactic (← `(tactic| first
+        | with_reducible refine Ev.trans ?_ (setMisc_ev _ _ _ _ _ _ ⟨rfl, rfl, rfl, rfl, rfl⟩)
+        | with_reducible refine Ev.trans ?_ (setCounts_ev _ _ ?_)))
+    else
     let last := match n with
       | .str _ s => s
       | _ => "?"
